@@ -101,6 +101,12 @@ class MirPanic(Exception):
     """A reachable MIR assert failure / explicit panic: reported as a violation by the explorer."""
 
 
+class MirUnwind(Exception):
+    """A panic that unwinds (raised by a summary, e.g. a job or a future that panics): call terminators with an
+    `unwind: bbN` edge continue in their cleanup block, `resume` re-raises in the caller, `unwind terminate` /
+    `unreachable` is an abort (MirPanic)."""
+
+
 class Unsupported(Exception):
     """Construct the interpreter cannot express: the check is broken, not passed."""
 
@@ -377,6 +383,8 @@ class Interp:
             if g and s[6:].strip() in g:
                 return g[s[6:].strip()]
             return self.const(s[6:], path)
+        if "::" in s and not s.startswith(("_", "(")) and re.fullmatch(r"[\w<>:, &\[\]()'*+{}@./#-]+", s):
+            return ("opaque", s)          # a function item passed as a value (e.g. `Option::<T>::take` to filter_map)
         raise Unsupported("operand? " + s)
 
     # ------------------------------------------------------------------ rvalues
@@ -604,7 +612,7 @@ class Interp:
                 for st in stmts[:-1]:
                     self.stmt(fr, st, path)
                 nxt = yield from self.term(fr, stmts[-1], path, depth, fn)
-            except (Infeasible, MirPanic, GeneratorExit):
+            except (Infeasible, MirPanic, MirUnwind, GeneratorExit):
                 raise
             except Exception as e:
                 if not hasattr(e, "mir_where"):
@@ -651,8 +659,10 @@ class Interp:
             return m.group(1)
         if t == "unreachable":
             raise Infeasible()
-        if t.startswith("resume") or t.startswith("abort") or t.startswith("terminate"):
-            raise MirPanic("unwinding terminator reached in " + fn.name)
+        if t.startswith("resume"):
+            raise MirUnwind("unwinding out of " + fn.name)
+        if t.startswith("abort") or t.startswith("terminate"):
+            raise MirPanic("abort: unwinding terminator reached in " + fn.name)
         m = re.match(r"^switchInt\((.+)\) -> \[(.+)\]$", t)
         if m:
             v = self.operand(fr, m.group(1), path)
@@ -681,9 +691,17 @@ class Interp:
                 if hasattr(r, "__next__"):
                     yield from r
             elif self.drop_hook is not None:
-                r = self.drop_hook(self, v, path, fr["__types__"].get(m.group(1).strip()))
-                if hasattr(r, "__next__"):
-                    yield from r
+                try:
+                    r = self.drop_hook(self, v, path, fr["__types__"].get(m.group(1).strip()))
+                    if hasattr(r, "__next__"):
+                        yield from r
+                except MirUnwind:
+                    mu = re.search(r"unwind: (bb\d+)", t)
+                    if mu:
+                        return mu.group(1)
+                    if "unwind continue" in t:
+                        raise
+                    raise MirPanic("panic in drop glue cannot unwind out of %s (abort)" % fn.name)
             return m.group(2)
         m = re.match(r"^assert\((!?)(.+?), (.*)\) -> \[success: (bb\d+).*\]$", t)
         if m:
@@ -698,7 +716,15 @@ class Interp:
             dest, calltxt, ret = m.groups()
             callee, argtxt = self.split_call(calltxt)
             args = [self.operand(fr, a, path) for a in self.split_top(argtxt)] if argtxt.strip() else []
-            v = yield from self.call(callee.strip(), args, path, depth, fr)
+            try:
+                v = yield from self.call(callee.strip(), args, path, depth, fr)
+            except MirUnwind:
+                mu = re.search(r"unwind: (bb\d+)", t)
+                if mu:
+                    return mu.group(1)
+                if "unwind continue" in t:
+                    raise
+                raise MirPanic("panic cannot unwind out of %s (abort)" % fn.name)
             self.place_cell(fr, dest).v = v
             return ret
         m = re.match(r"^(.+?) = (.+\)) -> (bb\d+)$", t)
